@@ -46,7 +46,8 @@ pub fn at_ambiguous_face(lv: &(Vec<LeafInfo>, Vec<usize>), a: usize, b: usize) -
     let (leaves, origin) = lv;
     let owner = |v: usize| leaves.iter().find(|l| l.4 <= origin[v] && origin[v] < l.4 + l.5.len());
     let (Some(la), Some(lb)) = (owner(a), owner(b)) else { return false };
-    if la.5.len() != 1 || lb.5.len() != 1 { return false; }
+    // (the recorded configuration: the two leaves share the WHOLE face, so they have the same depth)
+    if la.5.len() != 1 || lb.5.len() != 1 || la.0 != lb.0 { return false; }
     for ax in 0..3 {
         for (lo, hi) in [(la, lb), (lb, la)] {
             // `hi` sits on top of `lo` along `ax`, and their extents overlap on the other two axes
@@ -123,6 +124,8 @@ fn eval_f64(g: &GenShape, p: [f64; 3]) -> f64 {
     g.ctx.eval(g.root, &vars).unwrap_or(f32::NAN) as f64
 }
 
+fn r1c(r: &mut Rng) -> f32 { (r.unit() as f32 - 0.5) * 2.0 }
+
 pub fn run(seed: u64, count: usize, outdir: &str) -> std::io::Result<i32> {
     let mut rng = Rng::new(seed ^ 0xC08);
     let (mut cases, mut impls, mut oracle) = (String::new(), String::new(), String::new());
@@ -151,8 +154,30 @@ pub fn run(seed: u64, count: usize, outdir: &str) -> std::io::Result<i32> {
             let root = ctx.import(&t);
             g = GenShape { ctx, root, kind: "ambiguous-face" };
         }
+        // cases 3, 4: the round-2 witness for cell collapse over a two-sheet child: a 1.0 x 0.6 x 0.8 box (maximum of its six
+        // half-spaces) rotated by 0.3 about z and 0.5 about x, at depths 3 and 6
+        let witness = ci == 3 || ci == 4;
+        if witness {
+            use fidget_core::context::Tree;
+            let bx = |lo: [f32; 3], hi: [f32; 3]| -> Tree { let (x, y, z) = Tree::axes();
+                let a = (lo[0] - x.clone()).max(x - hi[0]); let b = (lo[1] - y.clone()).max(y - hi[1]); let c = (lo[2] - z.clone()).max(z - hi[2]); a.max(b).max(c) };
+            let rot_z = |t: Tree, ang: f32| -> Tree { let (x, y, z) = Tree::axes(); let (s, c) = ang.sin_cos(); t.remap_xyz(x.clone() * c + y.clone() * s, y * c - x * s, z) };
+            let rot_x = |t: Tree, ang: f32| -> Tree { let (x, y, z) = Tree::axes(); let (s, c) = ang.sin_cos(); t.remap_xyz(x, y.clone() * c + z.clone() * s, z * c - y * s) };
+            let t = rot_x(rot_z(bx([-0.5, -0.3, -0.4], [0.5, 0.3, 0.4]), 0.3), 0.5);
+            let mut ctx = fidget_core::context::Context::new();
+            let root = ctx.import(&t);
+            g = GenShape { ctx, root, kind: "rotated-box-witness" };
+            depth = if ci == 3 { 3 } else { 6 };
+        }
+        let corpus = corpus || witness;
         let s = 1.0 + r.unit() as f32 * 0.5;
-        let mat = if corpus { Matrix4::identity() } else { match r.below(4) { 0 => Matrix4::identity(), 1 => Matrix4::new_scaling(s),
+        // one case in five: an oblique polyhedral shape through a pure rotation
+        let oblique = !corpus && r.chance(0.2);
+        if oblique { g = gen_oblique(&mut r); depth = *r.pick(&[3u8, 3, 4, 5, 6, 6]); }
+        // one case in four: the same solid described by a field scaled by a power of ten (the mesh must not depend on it)
+        let mut unscaled: Option<(fidget_core::context::Node, f32)> = None;
+        if !corpus && r.chance(0.25) { let k = *r.pick(&[1e-4f32, 1e-2, 10.0, 1e3, 1e5, 1e6]); unscaled = Some((g.root, k)); let root = g.ctx.mul(g.root, k).unwrap(); g.root = root; }
+        let mat = if corpus { Matrix4::identity() } else if oblique { Matrix4::from_euler_angles(r1c(&mut r), r1c(&mut r), r1c(&mut r)) } else { match r.below(4) { 0 => Matrix4::identity(), 1 => Matrix4::new_scaling(s),
             // a perspective camera (as the CLI builds): the bottom row has a z term
             3 => { let mut m = Matrix4::new_scaling(1.3); m[(3, 2)] = *r.pick(&[0.3f32, 0.5, -0.25]); m }
             _ => Matrix4::new_scaling(1.8) * Matrix4::from_euler_angles(r.unit() as f32 * 3.0, r.unit() as f32 * 3.0, r.unit() as f32 * 3.0) } };
@@ -170,6 +195,9 @@ pub fn run(seed: u64, count: usize, outdir: &str) -> std::io::Result<i32> {
         let projective = m64[(3, 0)] != 0.0 || m64[(3, 1)] != 0.0 || m64[(3, 2)] != 0.0 || m64[(3, 3)] != 1.0;
         let mut inside = 0usize;
         let mut wsum = 0.0f64;
+        // the sign at every grid midpoint and the local area scale there, for an estimate of the TRUE surface area
+        let mut neg = vec![false; n * n * n];
+        let mut ascale = vec![0f32; n * n * n];
         {
             // the interpreter's many-point evaluator on the midpoints of an n^3 grid (model position = world_to_model * world)
             let sshape = Shape::<VmFunction>::new(&g.ctx, g.root).unwrap();
@@ -180,17 +208,26 @@ pub fn run(seed: u64, count: usize, outdir: &str) -> std::io::Result<i32> {
                 let mut xs = Vec::with_capacity(n * n); let mut ys = Vec::with_capacity(n * n); let mut zs = Vec::with_capacity(n * n);
                 for j in 0..n { for k in 0..n { xs.push(coord(i) as f32); ys.push(coord(j) as f32); zs.push(coord(k) as f32); } }
                 let out = ev.eval_with_transform(&tape, &xs, &ys, &zs, &mat).unwrap();
-                for (idx, v) in out.iter().enumerate() { if *v < 0.0 { inside += 1;
+                for (idx, v) in out.iter().enumerate() {
                     // the Jacobian determinant of p -> (A p + t) / (c.p + d) is det(M) / w^4
                     let (wx, wy, wz) = (xs[idx] as f64, ys[idx] as f64, zs[idx] as f64);
                     let wv = m64[(3, 0)] * wx + m64[(3, 1)] * wy + m64[(3, 2)] * wz + m64[(3, 3)];
-                    wsum += det4 / wv.powi(4).abs(); } }
+                    let jac = if projective { det4 / wv.powi(4).abs() } else { det };
+                    ascale[i * n * n + idx] = jac.powf(2.0 / 3.0) as f32;
+                    if *v < 0.0 { inside += 1; neg[i * n * n + idx] = true; wsum += jac; } }
             }
         }
+        // sign changes between neighbouring samples: their number times h^2 is the sum of the three axis projections of the
+        // surface, an upper bound of its area up to the sampling accuracy (model units through the local scale)
+        let area_bound = { let h2 = (2.0 / n as f64).powi(2); let mut a = 0.0f64;
+            for i in 0..n { for j in 0..n { for k in 0..n { let id = (i * n + j) * n + k;
+                for (ok, id2) in [(i + 1 < n, id + n * n), (j + 1 < n, id + n), (k + 1 < n, id + 1)] { if ok && neg[id] != neg[id2] { a += h2 * 0.5 * (ascale[id] + ascale[id2]) as f64; } } } } }
+            a };
         let vol_sampled = if projective { wsum * (2.0 / n as f64).powi(3) } else { inside as f64 * (2.0 / n as f64).powi(3) * det };
         let cell = 2.0 / (1u32 << depth) as f64 * det.cbrt();
         let mut il = String::new();
         let mut wire = String::new();
+        let mut vm_summary: Option<(f64, f64, bool, f64)> = None;
         for (name, res) in [("vm", catch_unwind(AssertUnwindSafe(|| build_mesh_l::<VmFunction>(&g, depth, mat, threads)))),
                             ("jit", catch_unwind(AssertUnwindSafe(|| build_mesh_l::<JitFunction>(&g, depth, mat, threads))))] {
             let (m, leaves) = match res { Ok(Some(m)) => m, Ok(None) => { bad.push(format!("kind=no-mesh backend={name}")); continue; }
@@ -204,13 +241,17 @@ pub fn run(seed: u64, count: usize, outdir: &str) -> std::io::Result<i32> {
             for p in &rep.problems { let (k, rest) = p.split_once(' ').unwrap();
                 let k = if ambiguous && (k == "kind=directed-edge-repeated" || k == "kind=open-or-misoriented-edge") { "kind=nonmanifold-at-ambiguous-face" } else { k };
                 bad.push(format!("{k} backend={name} {rest}")); }
+            let vol_start = bad.len();
             if rep.problems.is_empty() {
                 // enclosed volume vs sampled volume: within the sampling resolution of the octree
                 // features smaller than a cell may be missed or merged: cell^3 per such feature; surface placement: area * cell
                 // coarse octrees lose whole features thinner than a cell (not bounded by the mesh's own area): loose there,
                 // tight where the shape is resolved (depth >= 5: cells of 1/16 or less)
-                let tol = if depth >= 5 { 0.15 * rep.area * cell + 2.0 * cell.powi(3) + 0.004 * det + 0.5 * (2.0 / n as f64) * det.cbrt() * rep.area }
-                          else { 0.6 * rep.area * cell + 2.0 * cell.powi(3) + 0.02 * det + 1.5 * (2.0 / n as f64) * rep.area.max(1.0) };
+                // the tolerance follows the TRUE surface (estimated from the samples), not the mesh's own area: a mesh thrown far
+                // out of the region has a huge area and would excuse itself
+                let area = rep.area.min(1.25 * area_bound + 6.0 * cell * cell);
+                let tol = if depth >= 5 { 0.15 * area * cell + 2.0 * cell.powi(3) + 0.004 * det + 0.5 * (2.0 / n as f64) * det.cbrt() * area }
+                          else { 0.6 * area * cell + 2.0 * cell.powi(3) + 0.02 * det + 1.5 * (2.0 / n as f64) * area.max(1.0) };
                 // (leaf vertices are not clamped to their cells, so a feature of about one cell can come out inverted:
                 //  that is below the sampling resolution; an inward-wound mesh shows as a negative volume beyond it)
                 if rep.vol < -tol { bad.push(format!("kind=negative-volume backend={name} signed volume {:.5} (tolerance {:.4}): the mesh is wound inward", rep.vol, tol)); }
@@ -229,7 +270,24 @@ pub fn run(seed: u64, count: usize, outdir: &str) -> std::io::Result<i32> {
                 // coarse triangles on cell-sized features can deviate by more than 90 degrees from the true normal: only a majority counts
                 if out_bad * 2 > out_ok + out_bad && m.triangles.len() >= 200 { bad.push(format!("kind=inward-winding backend={name} {out_bad} of {} triangles face inward", out_ok + out_bad)); }
             }
-            if std::env::var("FV_DEBUG").is_ok() { eprintln!("case {ci} {name} depth {depth} tris {} vol {:.4} sampled {:.4} area {:.3} det {:.3}", m.triangles.len(), rep.vol, vol_sampled, rep.area, det); }
+            // every vertex lies in the meshing region (world coordinates (-1,1)^3, the surface is strictly inside), up to the cell it belongs to
+            let excursion = { let inv = m64.try_inverse(); m.vertices.iter().map(|v| match inv { Some(inv) => { let w = inv.transform_point(&nalgebra::Point3::new(v.x as f64, v.y as f64, v.z as f64));
+                (w.x.abs().max(w.y.abs()).max(w.z.abs()) - 1.0).max(0.0) / (2.0 / (1u32 << depth) as f64) } None => 0.0 }).fold(0.0f64, f64::max) };
+            // how far a cell vertex lies outside its own leaf cell, in units of that cell's size (world coordinates)
+            let escape = { let inv = m64.try_inverse(); let (lv, origin) = &leaves; let mut worst = (0.0f64, 0usize);
+                for (vi, v) in m.vertices.iter().enumerate() { let Some(inv) = inv else { break };
+                    let Some(l) = lv.iter().find(|l| l.4 <= origin[vi] && origin[vi] < l.4 + l.5.len()) else { continue };
+                    let w = inv.transform_point(&nalgebra::Point3::new(v.x as f64, v.y as f64, v.z as f64));
+                    let size = (l.2[0] - l.1[0]) as f64;
+                    let d = (0..3).map(|k| (l.1[k] as f64 - w[k]).max(w[k] - l.2[k] as f64).max(0.0)).fold(0.0, f64::max) / size;
+                    if d > worst.0 { worst = (d, l.0); } }
+                worst };
+            // the recorded finding qef-vertex-escapes-cell: QuadraticErrorSolver::solve does not keep its solution inside the cell; for
+            // features of about a cell the vertex lands cells away and the local volume / orientation is wrong
+            if escape.0 > 1.0 { for b in bad[vol_start..].iter_mut() { for k in ["kind=negative-volume", "kind=volume-mismatch", "kind=inward-winding"] {
+                if b.starts_with(k) { *b = format!("kind=qef-vertex-escapes-cell backend={name} a vertex lies {:.1} cell sizes outside its own leaf (leaf depth {}); {}", escape.0, escape.1, &b[5..]); } } } }
+            if std::env::var("FV_DEBUG").is_ok() { eprintln!("escape {:.3} at-leaf-depth {} case {ci} {name} depth {depth} tris {} vol {:.4} sampled {:.4} area {:.3} det {:.3} excursion {:.3} relarea {:.3}", escape.0, escape.1, m.triangles.len(), rep.vol, vol_sampled, rep.area, det, excursion, rep.area / det.powf(2.0 / 3.0)); }
+            if name == "vm" { vm_summary = Some((rep.vol, rep.area, rep.problems.is_empty(), escape.0)); }
             if name == "vm" { write!(il, "manifold {} | volsign {}", rep.problems.iter().all(|p| p.starts_with("kind=non-finite")) as u8, if rep.vol > 1e-6 { 1 } else if rep.vol < -1e-6 { -1 } else { 0 }).unwrap(); }
             if name == "vm" {
                 // the mesh for the verified checker: vertex bit patterns and triangles
@@ -237,6 +295,18 @@ pub fn run(seed: u64, count: usize, outdir: &str) -> std::io::Result<i32> {
                 for v in &m.vertices { write!(wire, " {} {} {}", v.x.to_bits(), v.y.to_bits(), v.z.to_bits()).unwrap(); }
                 for t in &m.triangles { write!(wire, " {} {} {}", t.x, t.y, t.z).unwrap(); }
             }
+        }
+        // the same solid through the field times a power of ten: both meshes must match the same volume, so they must match each other
+        if let (Some((root0, k)), Some((vol_s, area_s, ok_s, esc_s))) = (unscaled, vm_summary) {
+            let scaled_root = g.root; g.root = root0;
+            if let Ok(Some((m0, lv0))) = catch_unwind(AssertUnwindSafe(|| build_mesh_l::<VmFunction>(&g, depth, mat, threads))) {
+                let rep0 = check_mesh(&m0); let _ = lv0;
+                let dv = (rep0.vol - vol_s).abs(); let da = (rep0.area - area_s).abs();
+                if std::env::var("FV_DEBUG").is_ok() { eprintln!("scale {k} case {ci}: volume {vol_s} vs unscaled {} (diff {dv:.3e}), area diff {da:.3e}, manifold {} vs {}", rep0.vol, ok_s, rep0.problems.is_empty()); }
+                let lim = 1e-3 * (rep0.vol.abs().max(cell.powi(3))) + 1e-6;
+                if dv > lim || ok_s != rep0.problems.is_empty() { bad.push(format!("kind=field-scale-changes-mesh backend=vm field times {k}: volume {vol_s:.5} area {area_s:.4} manifold {ok_s} (largest escape {esc_s:.1} cells); unscaled volume {:.5} area {:.4} manifold {}", rep0.vol, rep0.area, rep0.problems.is_empty())); }
+            }
+            g.root = scaled_root;
         }
         if wire.is_empty() { wire = "c08 0 0".into(); }
         if il.is_empty() { il = "manifold 1 | volsign 0".into(); }
@@ -253,4 +323,31 @@ pub fn run(seed: u64, count: usize, outdir: &str) -> std::io::Result<i32> {
     write!(js, "\"oracle_fails\": {fails}}}").unwrap();
     std::fs::write(format!("{outdir}/stats.json"), js)?;
     Ok(if fails > 0 { 1 } else { 0 })
+}
+
+/// Looks for a SIMPLE witness of the recorded finding qef-vertex-escapes-cell: one small ball, identity transform.
+pub fn demo() {
+    use fidget_shapes::{types::Vec3, Sphere};
+    let mut r = Rng::new(7);
+    let mut shown = 0;
+    for _ in 0..4000 {
+        let c = [((r.unit() - 0.5) * 1.2) as f32, ((r.unit() - 0.5) * 1.2) as f32, ((r.unit() - 0.5) * 1.2) as f32];
+        let rad = (0.08 + r.unit() * 0.3) as f32;
+        let depth = *r.pick(&[1u8, 2, 3]);
+        let t: fidget_core::context::Tree = Sphere { center: Vec3::new(c[0], c[1], c[2]), radius: rad }.into();
+        let mut ctx = fidget_core::context::Context::new(); let root = ctx.import(&t);
+        let g = GenShape { ctx, root, kind: "ball" };
+        let Some((m, (lv, origin))) = build_mesh_l::<VmFunction>(&g, depth, Matrix4::identity(), 0) else { continue };
+        let rep = check_mesh(&m);
+        let truth = 4.0 / 3.0 * std::f64::consts::PI * (rad as f64).powi(3);
+        let mut worst = 0.0f64;
+        for (vi, v) in m.vertices.iter().enumerate() { let Some(l) = lv.iter().find(|l| l.4 <= origin[vi] && origin[vi] < l.4 + l.5.len()) else { continue };
+            let size = (l.2[0] - l.1[0]) as f64; let w = [v.x as f64, v.y as f64, v.z as f64];
+            worst = worst.max((0..3).map(|k| (l.1[k] as f64 - w[k]).max(w[k] - l.2[k] as f64).max(0.0)).fold(0.0, f64::max) / size); }
+        let cell = 2.0 / (1u32 << depth) as f64;
+        if rep.problems.is_empty() && worst > 2.0 && (rep.vol - truth).abs() > 3.0 * cell.powi(3) + truth {
+            println!("ball centre ({}, {}, {}) radius {} depth {depth}: {} triangles, mesh volume {:.4}, true volume {:.4}, a vertex {:.1} cell sizes outside its leaf", c[0], c[1], c[2], rad, m.triangles.len(), rep.vol, truth, worst);
+            shown += 1; if shown >= 5 { break; } }
+    }
+    if shown == 0 { println!("no single-ball witness among 4000"); }
 }
